@@ -26,11 +26,11 @@ theorem chain_le : ∀ {ss : List Rg} {a b : Nat}, chain a ss b = true → (∀ 
     have := hs s (by simp)
     omega
 
-theorem chain_mono : ∀ {ss : List Rg} {a b a' b' : Nat}, chain a ss b = true → a' ≤ a → b ≤ b' → chain a' ss b' = true
+theorem chain_widen : ∀ {ss : List Rg} {a b a' b' : Nat}, chain a ss b = true → a' ≤ a → b ≤ b' → chain a' ss b' = true
   | [], a, b, a', b', h, h1, h2 => by simp only [chain, decide_eq_true_eq] at *; omega
   | s :: ss, a, b, a', b', h, h1, h2 => by
     simp only [chain, Bool.and_eq_true, decide_eq_true_eq] at *
-    exact ⟨by omega, chain_mono h.2 (Nat.le_refl _) h2⟩
+    exact ⟨by omega, chain_widen h.2 (Nat.le_refl _) h2⟩
 
 /-- where a chain that started at `a` stands after the segments `ss` -/
 def chainEnd (a : Nat) (ss : List Rg) : Nat :=
